@@ -209,8 +209,9 @@ struct Engine
     long  sweep_seqs{0};
     int   sweep_depth{0};
     long  c15_groups{0};
-    bool  whitebox{true};
+    bool  whitebox{A::whitebox};
     bool  keep_states{false};
+    bool  bb_keep{false};
     std::vector<St> all_states;
 
     explicit Engine(Args& aa) : a(aa), cfg(aa.cfg), report(P(aa.prop)) {}
@@ -500,6 +501,15 @@ struct Engine
     // Is the op offered in this model state?  (environment restrictions keeping the space finite)
     bool enabled(const Model& m, const Op& o)
     {
+        if (ck == CK::rr && !whitebox && is_insert(o.k) && (o.allow & 1))
+        {
+            // black-box fallback: the generator cannot be owned, so evictions would be nondeterministic
+            int fresh = 0;
+            for (int i = 0; i < o.n; i++)
+                fresh += !SP::live(m, o.key[i]);
+            if (m.obs.size + fresh > cfg.cap)
+                return false;
+        }
         if constexpr (SP::is_lfu)
         {
             // use-count cap: no touching access/update of an entry that would exceed cmax
@@ -751,6 +761,56 @@ struct Engine
             s.key = (whitebox ? t.dump : std::string("?")) + "##" + SP::canon(post, cfg);
             succ.push_back(std::move(s));
         }
+        // C15, consecutive evictions: "no fixed position is always chosen".  From a full cache, insert a
+        // new key a (generator seeded with quantile q; victim v), then re-insert v WITHOUT touching the
+        // generator: the second draw comes from the advanced generator stream.  If, for every one of the
+        // RNGQ seeds, the second eviction removes exactly the key the first one just put in (i.e. hits the
+        // same position again), the generator state is not advancing / the choice is stuck.
+        if (ck == CK::rr && a.rngq_all && (report & P(15)) && cfg.cap >= 2 && m.obs.size >= cfg.cap)
+        {
+            for (int akey = 1; akey <= cfg.nkeys; akey++)
+            {
+                if (SP::live(m, akey))
+                    continue;
+                int same = 0, total = 0;
+                std::vector<Op> h2 = hist;
+                Op first, second;
+                for (int q = 0; q < RNGQ; q++)
+                {
+                    first.k      = OpK::Insert;
+                    first.n      = 1;
+                    first.key[0] = akey;
+                    first.allow  = 3;
+                    first.rngq   = q;
+                    first.wid[0] = depth * 4 + 1;
+                    Tr  t1       = exec(hist, &first);
+                    int v        = 0;
+                    for (int j = 1; j <= cfg.nkeys; j++)
+                        if (j != akey && SP::live(m, j) && !t1.sc.e[j].present)
+                            v = j;
+                    if (!v)
+                        continue;
+                    second        = first;
+                    second.key[0] = v;
+                    second.rngq   = 255;
+                    second.wid[0] = depth * 4 + 5;
+                    h2            = hist;
+                    h2.push_back(first);
+                    Tr t2 = exec(h2, &second);
+                    transitions += 2;
+                    total++;
+                    if (!t2.sc.e[akey].present)
+                        same++;
+                }
+                if (total == RNGQ && same == RNGQ)
+                    record_violation(
+                        h2,
+                        second,
+                        P(15),
+                        "for all " + std::to_string(RNGQ) + " generator seeds the eviction that follows another one removes the key "
+                        "that eviction had just inserted: the same position is chosen again every time");
+            }
+        }
         // C15: every resident must be chosen by exactly RNGQ/n of the RNGQ quantile branches
         if (ck == CK::rr && a.rngq_all && (report & P(15)))
         {
@@ -806,7 +866,25 @@ struct Engine
         for (auto& s : succ)
         {
             sweep_seqs++;
+            if (bb_keep && depth + 1 <= 2)
+            {
+                // black-box product search: every history up to depth 2 is a root state
+                int parent = 0;
+                for (auto& o : hist)
+                {
+                    nodes.push_back(Node{parent, o});
+                    parent = (int)nodes.size() - 1;
+                }
+                nodes.push_back(Node{parent, s.op});
+                all_states.push_back(St{(int)nodes.size() - 1, s.m});
+            }
             H128 h  = hash128(s.key);
+            if (a.verbose && whitebox && !seen.count(h))
+            {
+                std::vector<Op> hh = hist;
+                hh.push_back(s.op);
+                fprintf(stderr, "SWEEP-ONLY STATE: %s  =>  %s\n", hist_str(hh).c_str(), s.key.c_str());
+            }
             auto it = sweep_keys.find(h);
             if (it == sweep_keys.end() || it->second > depth + 1)
                 sweep_keys[h] = depth + 1;
@@ -865,6 +943,21 @@ struct Engine
         std::vector<Op> hist;
         std::vector<Succ> succ;
         fixpoint = false;
+        if (!whitebox)
+        {
+            // no state key without the white-box dump: explore every operation sequence up to the
+            // sweep depth without merging (and say so: never "fixpoint")
+            frontier.clear();
+            std::vector<Op> h;
+            bb_keep = keep_states;
+            sweep_rec(h, m0, 0, sweep_depth);
+            states    = sweep_seqs + 1;
+            max_depth = sweep_depth;
+            capped    = true;
+            if (samples.empty())
+                samples.push_back("black-box fallback: all operation sequences up to depth " + std::to_string(sweep_depth));
+            return;
+        }
         while (!frontier.empty())
         {
             next.clear();
@@ -887,6 +980,12 @@ struct Engine
                     H128 h = hash128(s.key);
                     if (seen.insert(h).second)
                     {
+                        if (a.verbose)
+                        {
+                            std::vector<Op> hh = hist;
+                            hh.push_back(s.op);
+                            fprintf(stderr, "BFS STATE d%d: %s  =>  %s\n", depth + 1, hist_str(hh).c_str(), s.key.c_str());
+                        }
                         states++;
                         if (depth + 1 <= sweep_depth)
                             depth_of[h] = depth + 1;
